@@ -224,6 +224,19 @@ def batch_validation(ctx):
         cases += 1
         x1, x2 = pt.make_placeholder("m1", s1, np.float64), pt.make_placeholder("m2", s2, np.float64)
         dis += _cmp(ctx, f"matmul:{s1}@{s2}", lambda: x1 @ x2, lambda: np.zeros(s1) @ np.zeros(s2), stats)
+    # ALL ordered pairs of shapes of rank 0..3 over a set of axis lengths that contains 1 (an axis of length 1 is
+    # stretched by einsum and by '*', on which matmul / dot / vdot are built, but NOT by NumPy's contraction:
+    # (3,) @ (1, 3) was accepted with shape (3,) until fix 957f394), through matmul, dot and vdot
+    lens = (1, 2, 3) if ctx.thorough else (1, 3)
+    shapes = [sh for r in range(4) for sh in itertools.product(lens, repeat=r)]
+    for s1, s2 in itertools.product(shapes, repeat=2):
+        x1, x2 = pt.make_placeholder("m1", s1, np.float64), pt.make_placeholder("m2", s2, np.float64)
+        a1, a2 = np.zeros(s1), np.zeros(s2)
+        for nm, fpt, fnp in (("matmul", lambda: pt.matmul(x1, x2), lambda: np.matmul(a1, a2)),
+                             ("dot", lambda: pt.dot(x1, x2), lambda: np.dot(a1, a2)),
+                             ("vdot", lambda: pt.vdot(x1, x2), lambda: np.vdot(a1, a2))):
+            cases += 1
+            dis += _cmp(ctx, f"{nm}:{s1},{s2}", fpt, fnp, stats)
     ctx.note_batch("argument-validation-vs-numpy", cases, dis, exhaustive=False, **stats)
 
 
@@ -358,12 +371,13 @@ def batch_degenerate_shortcuts(ctx):
             calls.append((f"concatenate1:{s}:axis={ax}", lambda ax=ax: pt.concatenate([x], ax), lambda ax=ax: np.concatenate([a], ax)))
             calls.append((f"stack1:{s}:axis={ax}", lambda ax=ax: pt.stack([x], ax), lambda ax=ax: np.stack([a], ax)))
             calls.append((f"sum:{s}:axis={ax}", lambda ax=ax: pt.sum(x, axis=ax), lambda ax=ax: np.sum(a, axis=ax)))
-        # (not drawn: NEGATIVE pad widths -- FINDING, reported: pt.pad accepts them and builds an array with a
-        #  shrunken or even negative shape, pad((0, 2) array, ((0, -1), (0, -1))).shape == (-1, 1); NumPy raises
-        #  ValueError -- and the empty pad_width () on a 0-d array, which NumPy refuses for its float dtype)
+        # (negative pad widths: pt.pad accepted them and built an array with a shrunken or even negative shape,
+        #  pad((0, 2) array, ((0, -1), (0, -1))).shape == (-1, 1), until fix 9b5765e; NumPy raises ValueError.
+        #  Not drawn: the empty pad_width () on a 0-d array, which NumPy refuses for its float dtype)
         for pw in [0, (0, 0), ((0, 0),) * nd, ((0, 0),) * (nd + 1), ((0, 0),) * max(nd - 1, 0) + ((0,),),
-                   (0, 0, 0), ((0, 0, 0),) * nd]:
-            if pw == ():
+                   (0, 0, 0), ((0, 0, 0),) * nd, -1, (0, -1), (-1, 1), ((0, -1),) * nd, ((1, 0),) * max(nd - 1, 0) + ((-2, 3),),
+                   np.int64(-1), (np.int8(1), np.int8(-1))]:
+            if isinstance(pw, tuple) and len(pw) == 0:
                 continue
             calls.append((f"pad:{s}:{pw}", lambda pw=pw: pt.pad(x, pw), lambda pw=pw: np.pad(a, pw)))
         calls.append((f"pad:{s}:0:mode=bogus", lambda: pt.pad(x, 0, mode="bogus"), lambda: np.pad(a, 0, mode="bogus")))
